@@ -965,7 +965,7 @@ func C07() *check.Property {
 			"user functions are only called in the subscribe body, a next slot or a teardown (USER-FN-CONTEXT), errors returned by callees become Error notifications without falling through (ERR-RESULT-USED), error wrappers unwrap (UNWRAP) and no function leaves a lock held on a normal exit (LOCK-PAIRING).",
 		NotDecided:  "panics in custom Observer implementations while subscriberImpl.mu is held (the unlocks are not deferred); exactly-once along a chain (follows from C01); the injected-fault sequences themselves (no execution).",
 		Assumptions: []string{"lo.TryCatchWithErrorValue recovers panics of its first argument and passes the value to the second"},
-		Floors:      map[string]int{"user_calls": 30, "go_statements": 8, "functions_with_locks": 40, "error_wrappers": 3, "foreign_calls_in_locking_functions": 1, "error_slot_notifications": 80, "delivering_methods": 3},
+		Floors:      map[string]int{"user_calls": 30, "go_statements": 8, "functions_with_locks": 40, "error_wrappers": 3, "foreign_calls_in_locking_functions": 1, "error_slot_notifications": 80, "delivering_methods": 3, "error_wrapper_constructors": 3},
 		Controls:    map[string]string{"zz_verif_controls_c07.go": roControl(controlsC07 + controlsC07b), "zz_verif_controls_nilguard.go": roControl(controlsNilGuard + controlsNilableCallback), "zz_verif_controls_access.go": roControl(controlsAccessGuard), "zz_verif_controls_termrel.go": roControl(controlsTerminalRelease + controlsErrorBeforeRelease), "zz_verif_controls_c06.go": roControl(controlsC06)},
 	}
 }
@@ -1203,6 +1203,30 @@ func rulePanicSafeUnlock() check.Rule {
 							}
 						}
 						if fv == nil {
+							// a terminal notification runs the teardowns of the subscriber that receives it, and Unsubscribe
+							// re-raises their panics: sending one is calling code the library does not own
+							what := ""
+							if name, isObs := m.Obj.ObserverMethods[model.Callee(info, call)]; isObs && notifKind(name) > 0 {
+								what = name
+							} else if k := subjectHelperKind(m, p, call); k == "broadcast" {
+								if sendsTerminal(m, p, call) {
+									what = shortCallee(info, call)
+								}
+							}
+							if what == "" {
+								return true
+							}
+							held := res.UndeferredAt(call)
+							if d, isDefer := m.Parent(p, call).(*ast.DeferStmt); isDefer && d.Call == call {
+								held = res.HeldByDeferred(d) // runs at function exit (unicast: `defer tmp.ErrorWithContext(…) // out of lock`)
+							}
+							if len(held) == 0 {
+								return true
+							}
+							n++
+							c.Inc("terminal_notifications_in_locking_functions", 1)
+							key := fmt.Sprintf("%s/terminal-under-lock-%s#%d", chainKey(m, p, m.EnclosingFuncs(p, fn), scs), what, n)
+							c.Report(armed, key, call.Pos(), "%s delivers a terminal notification while %s is held and released only by an explicit Unlock: the receiving subscriber closes itself and runs its teardowns inside the notification, Unsubscribe re-raises a teardown's panic, and the panic unwinds past the Unlock — the lock stays held, the other observers are never notified and every later call blocks", what, held)
 							return true
 						}
 						if _, isSig := fv.Type().Underlying().(*types.Signature); !isSig {
@@ -1302,6 +1326,12 @@ func verifControlErrorToComplete[T any]() func(Observable[T]) Observable[T] {
 			return sub.Unsubscribe
 		})
 	}
+}
+
+func verifControlTerminalUnderLock[T any](mu *sync.Mutex, o Observer[T]) {
+	mu.Lock()
+	o.Complete()
+	mu.Unlock()
 }
 `
 
@@ -1420,5 +1450,21 @@ func sendsAsError(m *model.Model, p *packages.Package, body *ast.BlockStmt, v *t
 		}
 		return !found
 	})
+	return found
+}
+
+// sendsTerminal: the same-type helper called here notifies stored observers with Error or Complete.
+func sendsTerminal(m *model.Model, p *packages.Package, call *ast.CallExpr) bool {
+	found := false
+	for _, b := range calleeBodies(m, p, call) {
+		inspectTransitive(m, b.Pkg, b.Body, 2, func(q *packages.Package, n ast.Node) bool {
+			if c2, ok := n.(*ast.CallExpr); ok {
+				if name, isObs := m.Obj.ObserverMethods[model.Callee(q.TypesInfo, c2)]; isObs && notifKind(name) > 0 {
+					found = true
+				}
+			}
+			return !found
+		})
+	}
 	return found
 }
